@@ -41,6 +41,23 @@ class Matcher:
     def __init__(self, prog=None, fn=None):
         self.prog = prog
         self.fn = fn
+        self._defs = None
+
+    def _single_defs(self):
+        """locals of fn assigned exactly once by `name = <expr>`: a template may look through such a temporary"""
+        if self._defs is None:
+            self._defs = {}
+            if self.fn is not None:
+                from .loader import walk_no_nested
+                cnt = {}
+                for n in walk_no_nested(self.fn.node):
+                    if isinstance(n, ast.Name) and isinstance(n.ctx, (ast.Store, ast.Del)):
+                        cnt[n.id] = cnt.get(n.id, 0) + 1
+                for n in walk_no_nested(self.fn.node):
+                    if isinstance(n, ast.Assign) and len(n.targets) == 1 and isinstance(n.targets[0], ast.Name) \
+                            and cnt.get(n.targets[0].id) == 1 and n.targets[0].id not in self.fn.all_params:
+                        self._defs[n.targets[0].id] = n.value
+        return self._defs
 
     def match(self, node, tpl, binds=None, mode=None):
         """Return dict of bindings or None."""
@@ -49,7 +66,13 @@ class Matcher:
                 mode = 'exec' if isinstance(node, ast.stmt) else 'eval'
             tpl = parse_template(tpl, mode)
         b = Binds() if binds is None else Binds(binds)
-        return b if self._m(node, tpl, b) else None
+        self._root = node
+        self._root_value = getattr(node, 'value', None) if isinstance(node, ast.stmt) else None
+        try:
+            return b if self._m(node, tpl, b) else None
+        finally:
+            self._root = None
+            self._root_value = None
 
     def _qual(self, node):
         d = _dotted(node)
@@ -80,6 +103,16 @@ class Matcher:
                 if q is not None:
                     return q == 'numpy.' + '.'.join(dt[1:])
         if type(n) is not type(t):
+            # transparent temporaries: the code names a sub-expression that the template spells out
+            if isinstance(n, ast.Name) and isinstance(n.ctx, ast.Load) and not isinstance(t, ast.Name) and self.fn is not None \
+                    and n is not getattr(self, '_root', None) and n is not getattr(self, '_root_value', None):
+                d = self._single_defs().get(n.id)
+                if d is not None and not getattr(self, '_depth', 0) > 3:
+                    self._depth = getattr(self, '_depth', 0) + 1
+                    try:
+                        return self._m(d, t, b)
+                    finally:
+                        self._depth -= 1
             return False
         if isinstance(t, ast.Constant):
             return type(n.value) is type(t.value) and n.value == t.value or (
@@ -125,6 +158,8 @@ class Matcher:
             if isinstance(n, ast.stmt) and isinstance(t, ast.Expr) and not isinstance(n, ast.Expr):
                 continue
             b = Binds()
+            self._root = n
+            self._root_value = getattr(n, 'value', None) if isinstance(n, ast.stmt) else None
             if self._m(n, t, b):
                 yield n, b
 
